@@ -441,6 +441,38 @@ def err_shapes(tier):
             shapes.append([t0, {"k": "route", "c": handler_id(0, [in_code(f0, "m"), "0", "0"], hf)}])
         shapes.append([ctor_op(0, f0, "0", "f", "request_scoped", cl0), {"k": "pre", "c": mw_id("pre", 1, False, in_code(f0, "m"))},
                        {"k": "route", "c": handler_id(0, [in_code(f0, "r"), "0", "0"])}])
+    # ERR-METH: method-style error handlers (`#[pavex::methods] impl T`): the error reference is the SECOND input when the
+    # receiver is another type (`fn handle(&self, #[px(error_ref)] e: &E)`), the first when the receiver is the error itself;
+    # each next to a user fallback for pavex::Error that must NOT be chosen; method-style handler and pre-processor
+    fbk = {"k": "eh", "c": "EH_PAVEXERROR_1__0"}
+    mh = {"k": "ctor", "c": "C_MHOLDER_NEW", "lc": "request_scoped"}
+    for with_fb in (False, True):
+        extra = [fbk] if with_fb else []
+        shapes.append(extra + [mh, {"k": "eh", "c": "EH_M_ERRH_SELF"}, {"k": "route", "c": handler_id(0, ["0", "0", "0"], True)}])
+        shapes.append(extra + [{"k": "eh", "c": "EH_M_ERRH_ON_ERR"}, {"k": "route", "c": handler_id(0, ["0", "0", "0"], True)}])
+        shapes.append(extra + [mh, {"k": "eh", "c": "EH_M_ERRPRE_SELF"}, {"k": "pre", "c": mw_id("pre", 1, True)},
+                               {"k": "route", "c": handler_id(0, ["0", "0", "0"])}])
+        shapes.append(extra + [{"k": "eh", "c": "EH_M_ERRPRE_ON_ERR"}, {"k": "pre", "c": mw_id("pre", 1, True)},
+                               {"k": "route", "c": handler_id(0, ["0", "0", "0"])}])
+        shapes.append(extra + [mh, {"k": "eh", "c": "EH_M_ERRH_SELF"}, {"k": "eh", "c": "EH_M_ERRPRE_SELF"}, {"k": "pre", "c": "PRE_M_SELF"},
+                               {"k": "route", "c": "H0_M_SELF"}])
+        shapes.append(extra + [mh, {"k": "eh", "c": "EH_M_ERRC_SELF"}, ctor_op(0, "P", "0", "f", "request_scoped", None),
+                               {"k": "route", "c": handler_id(0, ["PR", "0", "0"])}])
+    # ERR-OBSBETWEEN: one fallible middleware (or one fed by a fallible constructor) shared by two routes, with an error observer
+    # registered BETWEEN the routes: failures on the second route must reach it, failures on the first must not
+    for k in kinds:
+        for variant in ("self-fallible", "fallible-input"):
+            for n_before in (0, 1):
+                ops = [{"k": "observer", "c": "OBS1__0"}] * n_before
+                if variant == "self-fallible":
+                    ops.append({"k": k, "c": mw_id(k, 1, True)})
+                else:
+                    ops.append(ctor_op(0, "P", "0", "f", "request_scoped", None))
+                    ops.append({"k": k, "c": mw_id(k, 1, False, "PR")})
+                ops.append({"k": "route", "c": handler_id(1, ["0", "0", "0"], True)})
+                ops.append({"k": "observer", "c": "OBS2__0"})
+                ops.append({"k": "route", "c": handler_id(0, ["0", "0", "0"], True)})
+                shapes.append(ops)
     # ERR-OBS3: three error observers in scope of the failing route, registered on its own blueprint and / or
     # inherited from the parent (split a + b = 3), with the framework default, the user fallback and specific
     # error handlers; ERR-OBSLATE: observers the parent registers AFTER `nest` (they must not reach the
